@@ -105,7 +105,13 @@ func mustUnit(ctx *Ctx, a *locks.Analysis, rule, name string) *flow.Unit {
 
 // constObj resolves a package-level constant.
 func constObj(pk *packages.Package, name string) types.Object {
-	return pk.Types.Scope().Lookup(name)
+	if o := pk.Types.Scope().Lookup(name); o != nil {
+		return o
+	}
+	if tn := core.LookupType(pk.Types.Scope(), name); tn != nil {
+		return tn // a type that was renamed since the reference tree
+	}
+	return nil
 }
 
 // usesObj reports whether expression tree x mentions object o.
@@ -126,6 +132,25 @@ func litChildren(a *locks.Analysis, u *flow.Unit) []*flow.Unit {
 	for _, c := range a.Eng.Units {
 		if c.Parent == u {
 			out = append(out, c)
+		}
+	}
+	return out
+}
+
+// newHelperParams: the parameter objects of the functions that did not exist
+// on the reference tree (helpers extracted since).
+func newHelperParams(a *locks.Analysis) map[types.Object]bool {
+	out := map[types.Object]bool{}
+	for _, u := range a.Eng.Units {
+		if u.Obj == nil || !core.IsNewFunc(u.Obj) || u.Type == nil || u.Type.Params == nil {
+			continue
+		}
+		for _, f := range u.Type.Params.List {
+			for _, nm := range f.Names {
+				if o := u.Pkg.TypesInfo.ObjectOf(nm); o != nil {
+					out[o] = true
+				}
+			}
 		}
 	}
 	return out
